@@ -36,17 +36,17 @@ ASSUMPTIONS = ["image and mask have the same 2-d shape; mask is boolean; the smo
 EXHAUSTIVE = {"quick": False, "thorough": False}
 
 # ------------------------------------------------------------------------------------------------ static side
-AUTO = ["grey_erosion", "grey_dilation", "opening", "closing", "white_tophat", "black_tophat",
-        "sobel", "hsobel", "vsobel", "prewitt", "hprewitt", "vprewitt",
-        "laplacian_of_gaussian", "variance_transform", "smooth_with_function_and_mask",
-        "bridge", "clean", "diag", "endpoints", "branchpoints", "fill", "fill4", "hbreak", "vbreak", "majority",
-        "remove", "thicken"]
+# hand-written, pinned to the normalised AST: loops over shifted slices (openlines, circular_hough, regional_maximum);
+# convex_hull_transform translates automatically but its term, written as a tree, has 1.6e9 nodes (the language has
+# no sharing construct)
+HAND_TERMS = ["openlines", "circular_hough", "regional_maximum", "convex_hull_transform"]
 BINARY = ["bridge", "clean", "diag", "endpoints", "branchpoints", "fill", "fill4", "hbreak", "vbreak", "majority",
           "remove", "spur", "thicken", "thin", "skeletonize"]
 LISTED = ["median_filter", "grey_erosion", "grey_dilation", "opening", "closing", "white_tophat", "black_tophat",
           "openlines", "sobel", "hsobel", "vsobel", "prewitt", "hprewitt", "vprewitt", "roberts", "canny",
           "laplacian_of_gaussian", "variance_transform", "circular_average_filter", "smooth_with_function_and_mask",
           "stretch", "fit_polynomial", "circular_hough", "convex_hull_transform", "regional_maximum"] + BINARY
+AUTO = [n for n in LISTED if n not in HAND_TERMS]
 # normalised-AST pins of the functions that have hand-written terms (and of the code those terms rely on)
 PINS = {}
 try:
@@ -57,7 +57,9 @@ except Exception:      # a missing pin file makes every hand term void (translat
     PINS = {}
 
 
-UNTRANSLATABLE = ("Glob", "UNTRANSLATABLE", (("Img",),))      # a term the checker rejects
+def _untranslatable():
+    import gen_maskflow_c12 as G
+    return G.Glob("UNTRANSLATABLE", G.Img)                     # a term the checker rejects
 
 
 def build_terms(sources):
@@ -73,18 +75,16 @@ def build_terms(sources):
         try:
             store[name] = G.lower(thunk())
         except (G.Unsupported, KeyError, IndexError, TypeError, ValueError, AttributeError) as e:
-            store[name] = UNTRANSLATABLE
+            store[name] = _untranslatable()
             errors.append("%s: %s: %s" % (name, type(e).__name__, str(e)[:200]))
 
     def pins_ok(name):
         for n in [name] + Hd.ALSO_PINNED.get(name, []):
             if n not in M.funcs:
                 raise G.Unsupported("function %s not found in the source" % n)
-            h = G.ast_hash(M.funcs[n])
+            h = G.norm_hash(M.funcs[n])
             if PINS.get(n) != h:
                 raise G.Unsupported("hand-written term of %s is void: %s has hash %s, pinned %s" % (name, n, h, PINS.get(n)))
-        if name == "canny":
-            Hd.check_canny_reads(M)
 
     for name in AUTO:
         attempt(name, lambda name=name: G.translate(
@@ -97,7 +97,7 @@ def build_terms(sources):
         attempt(name, lambda fn=fn, builder=builder: (pins_ok(fn), builder(M))[1], extra)
     for n in LISTED:
         if n not in terms:
-            terms[n] = UNTRANSLATABLE
+            terms[n] = _untranslatable()
             errors.append("%s: no term" % n)
     return terms, rejected, extra, errors
 
@@ -129,6 +129,9 @@ def emit(terms, rejected, extra=None):
     out.append("(* " + "; ".join("%d: %s" % (i, n.replace("*)", "* )")) for n, i in em.syms.items()) + " *)")
     out.append("(* constants (index: name) *)")
     out.append("(* " + "; ".join("%d: %s" % (i, n.replace("*)", "* )")) for n, i in em.consts.items()) + " *)")
+    out.append("")
+    out.append("(* shared sub-terms (text sharing only) *)")
+    out.extend(em.defs)
     out.append("")
     out.extend(body)
     out.append("Definition listed_progs : list expr :=\n  [%s]." % "; ".join("prog_" + n for n in LISTED))
